@@ -9,7 +9,10 @@ let decl_of_case (w : string list) : decl * odecl list =
   match w with
   | "U" :: app :: about :: defname :: pos :: posname :: _prior :: groups :: opts ->
     let gdefs = if groups = "." then [] else
-        List.map (fun g -> match fields g with [n; d] -> (str_of_hex n, str_of_hex d) | _ -> raise Bad_case)
+        List.map (fun g -> match fields g with
+            | [n; d] -> (str_of_hex n, str_of_hex d, false)
+            | [n; d; "L"] -> (str_of_hex n, str_of_hex d, true)     (* created late: after the groups that are not *)
+            | _ -> raise Bad_case)
           (String.split_on_char ',' groups) in
     let ng = List.length gdefs in
     let per_group = Array.make (ng + 1) [] in
@@ -43,7 +46,8 @@ let decl_of_case (w : string list) : decl * odecl list =
         | _ -> raise Bad_case) opts;
     let d = { d_app = str_of_hex app; d_about = str_of_hex about;
               d_default = { g_name = str_of_hex defname; g_descr = []; g_opts = List.rev per_group.(0) };
-              d_groups = List.mapi (fun i (n, ds) -> { g_name = n; g_descr = ds; g_opts = List.rev per_group.(i + 1) }) gdefs;
+              d_groups = (let gs = List.mapi (fun i (n, ds, late) -> (late, { g_name = n; g_descr = ds; g_opts = List.rev per_group.(i + 1) })) gdefs in
+                          List.map snd (List.filter (fun (l, _) -> not l) gs) @ List.map snd (List.filter fst gs));
               d_positionals = (pos = "1"); d_posname = str_of_hex posname } in
     let lt = List.map snd (List.sort (fun (a, _) (b, _) -> compare a b) !longs) in
     (d, lt)
